@@ -16,19 +16,33 @@ What is proved
   3b. whitelist_cache_coherent / whitelist_restart_invisible — the whitelisted-fee list of Policy (separate
      component, Model/Ledger/Whitelist.lean) is restart-transparent for all operation sequences (since fix cb24446
      a re-set overwrites the cached entry; whitelist_restart_regression_witness is the history that diverged before).
-  3c. components (Model/Ledger/Components.lean): settings / whitelist / designate / management `_cache_coherent` — after
-     any sequence of blocks (halting, faulting, rolled-back transactions) and restarts the cache is exactly
-     InitializeCache(storage); gasPerVote lookup coherence; all_natives_schedule_independent lifts the main
-     theorem to the product of all modelled natives. settings_ro_write_breaks_coherence shows what the layer
-     discipline (writes through GetRWCache only; obligation cache_writes_disciplined) protects against.
+  3c. components (Model/Ledger/Components.lean, Guarded.lean): settings / whitelist / designate / management
+     `_cache_coherent` — after any sequence of blocks (halting, faulting, rolled-back transactions) and restarts the
+     cache is exactly InitializeCache(storage). The committee setters carry their GUARDS (argument conversion, range
+     and cross-setting checks that read the cache, committee witness against the cached committee of the block), so
+     the model predicts halt/fault; gasPerBlock_cache_coherent is the full lookup statement for the append-only
+     gasPerBlock cache; settings_guards_keep_vub_below_mtb is a consequence of the guards on every replica;
+     all_natives_schedule_independent lifts the main theorem to the DEPENDENT product of all modelled natives (the
+     natives part supplies the committee the guarded components check witnesses against), per-transaction
+     outcomes of the guarded calls included. settings_ro_write_breaks_coherence shows what the layer discipline
+     (writes through GetRWCache only; obligation cache_writes_disciplined) protects against.
   4. map_ranges_classified — every iteration over a Go map found by the extractor in the consensus-critical
      packages is classified (regenerated table, `decide`).
+  5. cache_writes_disciplined — every write to a native cache goes through GetRWCache or a fresh cache.
+  6. cache_fields_classified / cache_restore_matches_classification / cache_maps_cloned_on_copy — every field of every
+     native cache struct is classified (restored from storage key K | derived | transient with reason), the
+     classification covers exactly the fields in the current source, every field is set in the closure of its
+     native's InitializeCache from the expression the classification names (regenerated table CacheRestore).
+  (The equalities between the model's guards and the guards translated from the Go source are
+   Proofs/LedgerGuardsTie.lean.)
 -/
 import NeoModel.Proofs.LedgerAdequate
 import NeoModel.Proofs.LedgerWhitelist
 import NeoModel.Proofs.LedgerProduct
+import NeoModel.Proofs.LedgerProductG
 import NeoModel.Generated.MapRanges
 import NeoModel.Generated.CacheWrites
+import NeoModel.Generated.CacheRestore
 namespace NeoModel.Ledger
 
 section generic
@@ -238,13 +252,36 @@ namespace Components
 open Comp
 
 /-- (C01, cache_coherent: Policy attribute fees / MaxValidUntilBlockIncrement / MaxTraceableBlocks /
-    MillisecondsPerBlock, Notary MaxNotValidBeforeDelta, Oracle price, NEO register price) After any sequence of
-    blocks — transactions that halt, panic half-way or are rolled back as a whole — and restarts, the settings
-    cache is exactly InitializeCache(storage). -/
-theorem settings_cache_coherent (steps : List (CStep { o : SetOp // o.disciplined = true }))
-    (n : CNode (List (Nat × Int)) (List (Nat × Int))) (h : n.cache = settingsRW.init n.store) :
-    (settingsRW.crun n steps).cache = settingsRW.init (settingsRW.crun n steps).store :=
-  cache_coherent settingsRW settingsRW_exact steps n h
+    MillisecondsPerBlock, Notary MaxNotValidBeforeDelta, Oracle price, NEO register price — WITH the setters' guards)
+    After any sequence of blocks — each run against whatever committee the NEO cache holds at that block; calls that
+    pass or fail their range / cross-setting / witness checks; transactions that halt, panic half-way or are rolled
+    back as a whole — and restarts, the settings cache is exactly InitializeCache(storage). -/
+theorem settings_cache_coherent (steps : List (EComp.EStep Guarded.Env (Guarded.GCall Guarded.GSetOp)))
+    (n : CNode (List (Nat × Int)) (List (Nat × Int))) (h : n.cache = Guarded.gsettings.init n.store) :
+    (Guarded.gsettings.erun n steps).cache = Guarded.gsettings.init (Guarded.gsettings.erun n steps).store :=
+  EComp.ecache_coherent Guarded.gsettings Guarded.gsettings_exact steps n h
+
+-- non-vacuity: committee [K0,K1] (majority 2); setMaxTraceableBlocks 10 passes (≤ old 20, > vubi 5), then
+-- setMaxValidUntilBlockIncrement 10 FAULTs against the cached mtb 10, a call without witness faults, 9 passes; a
+-- restart in between
+example :
+    let e : Guarded.Env := { committee := [(0, 0), (1, 0)], validators := 1 }
+    let w : Guarded.Witness := some (2, [1, 0])
+    let n := Guarded.gsettings.erun { store := Guarded.genesisSettings 20 5 1000, cache := Guarded.genesisSettings 20 5 1000, height := 0 }
+      [.block e [{ ops := [⟨.maxTraceable 10, w⟩], halts := true }], .restart,
+       .block e [{ ops := [⟨.maxVUB 10, w⟩], halts := true }, { ops := [⟨.maxVUB 8, none⟩], halts := true },
+                 { ops := [⟨.maxVUB 9, w⟩], halts := true }]]
+    Guarded.cval n.cache Guarded.kMTB = 10 ∧ Guarded.cval n.cache Guarded.kVUB = 9 ∧ n.cache = n.store := by decide
+
+/-- (C01, what the guards that read the CACHE guarantee on every replica) MaxValidUntilBlockIncrement stays below
+    MaxTraceableBlocks over any history of guarded setter calls, blocks and restarts: each of the two setters checks
+    its argument against the cached value of the other, and the cache is the stored value (coherence). -/
+theorem settings_guards_keep_vub_below_mtb (steps : List (EComp.EStep Guarded.Env (Guarded.GCall Guarded.GSetOp)))
+    (n : CNode (List (Nat × Int)) (List (Nat × Int))) (h : n.cache = n.store) (hi : Guarded.VubInv n.store) :
+    Guarded.VubInv (Guarded.gsettings.erun n steps).store :=
+  (Guarded.gsettings_erun_vub steps n ⟨h, hi⟩).2
+
+example : Guarded.VubInv (Guarded.genesisSettings 20 5 1000) := by unfold Guarded.VubInv; decide
 
 /-- (C01, cache_coherent: Policy whitelisted fees as a layered component) -/
 theorem whitelist_component_cache_coherent (steps : List (CStep WlOp)) (n : CNode (List (WKey × Int)) (List (WKey × Int)))
@@ -252,12 +289,14 @@ theorem whitelist_component_cache_coherent (steps : List (CStep WlOp)) (n : CNod
     (whitelist.crun n steps).cache = whitelist.init (whitelist.crun n steps).store :=
   cache_coherent whitelist whitelist_exact steps n h
 
-/-- (C01, cache_coherent: RoleManagement) The cache always holds, per role, the stored record with the greatest
-    activation height — what InitializeCache reads (independent of the block height at which the node restarts). -/
-theorem designate_cache_coherent (steps : List (CStep RoleOp)) (n : CNode RoleStore RoleCache)
-    (h : n.cache = designate.init n.store) :
-    (designate.crun n steps).cache = designate.init (designate.crun n steps).store :=
-  cache_coherent designate designate_exact steps n h
+/-- (C01, cache_coherent: RoleManagement WITH the guards of designateAsRole: role validity, list size, committee
+    witness, one designation per role and block, no duplicate keys) The cache always holds, per role, the stored
+    record with the greatest activation height — what InitializeCache reads (independent of the block height at
+    which the node restarts). -/
+theorem designate_cache_coherent (steps : List (EComp.EStep Guarded.Env (Guarded.GCall Guarded.DesOp))) (n : CNode RoleStore RoleCache)
+    (h : n.cache = Guarded.gdesignate.init n.store) :
+    (Guarded.gdesignate.erun n steps).cache = Guarded.gdesignate.init (Guarded.gdesignate.erun n steps).store :=
+  EComp.ecache_coherent Guarded.gdesignate Guarded.gdesignate_exact steps n h
 
 /-- (C01, cache_coherent: ContractManagement contract records; the next contract id lives in storage only) -/
 theorem management_cache_coherent (steps : List (CStep MgmtOp)) (n : CNode MgmtStore (List (Nat × (Int × Nat))))
@@ -280,26 +319,35 @@ theorem gasPerVote_cache_coherent (ops : List GpvOp) (k : Nat) :
     gpvLookup (gpvRun { store := [], cache := [] } ops) k = (aget (gpvRun { store := [], cache := [] } ops).store k).getD 0 :=
   gpvLookup_stored _ (gpvRun_coherent ops _ (by intro k v h; simp [aget] at h)) k
 
-/-- (C01, cache_coherent: NEO gasPerBlock records, partial) With at most one setGasPerBlock per block (strictly
-    increasing block indices) the append-only cache is exactly what InitializeCache reads back from storage.
-    FULL statement: for every index, GetGASPerBlock answers alike before and after a restart, also when a block
-    sets the value twice (the cache then holds two records of the same index, storage one; the backward search
-    still finds the newest). Missing: the proof for duplicate indices (covered by the stream and the search). -/
-theorem gasPerBlock_cache_coherent_partial (ops : List (Nat × Int)) (h : Increasing 0 ops) :
-    (gpbRestart (gpbFold { store := [], cache := [] } ops)).cache = (gpbFold { store := [], cache := [] } ops).cache :=
-  gpbFold_inv ops _ 0 ⟨rfl, fun _ he => by simp at he⟩ List.Pairwise.nil h
+/-- (C01, cache_coherent: NEO gasPerBlock records, FULL statement, with the guards of setGasPerBlock) From the
+    genesis record on, after any history of blocks (any number of setGasPerBlock calls per block, passing or failing
+    their range / witness checks, in halting or rolled-back transactions) and restarts, GetGASPerBlock answers for
+    EVERY index exactly as a node restarted at that point would — although the append-only cache of the running
+    node and the cache InitializeCache builds differ as lists when a block set the value twice. -/
+theorem gasPerBlock_cache_coherent (v0 : Int) (steps : List (EComp.EStep Guarded.Env (Guarded.GCall Int))) (i : Nat) :
+    let n := Guarded.gpb.erun { store := [(0, v0)], cache := [(0, v0)], height := 0 } steps
+    gpbLookup n.cache i = gpbLookup (Guarded.gpb.init n.store) i := by
+  intro n
+  have hg := Guarded.gpb_erun_good steps { store := [(0, v0)], cache := [(0, v0)], height := 0 } (Guarded.gpb_genesis_good v0)
+  rw [Guarded.gpbLookup_spec hg, Guarded.gpbLookup_spec (Guarded.gpb_init hg)]
 
-example : Increasing 0 [(0, 5), (3, 7), (9, 1)] ∧
-    gpbLookup (gpbFold { store := [], cache := [] } [(0, 5), (3, 7), (9, 1)]).cache 6 = some 7 :=
-  ⟨by simp [Increasing], by decide⟩
+-- two sets in one block: cache and restarted cache differ as lists, every lookup agrees (instance of the theorem)
+example :
+    let e : Guarded.Env := { committee := [(0, 0)], validators := 1 }
+    let n := Guarded.gpb.erun { store := [(0, 5)], cache := [(0, 5)], height := 0 }
+      [.block e [{ ops := [⟨7, some (1, [0])⟩], halts := true }, { ops := [⟨8, some (1, [0])⟩], halts := true },
+                 { ops := [⟨9, none⟩], halts := true }, { ops := [⟨-1, some (1, [0])⟩], halts := true }]]
+    n.cache = [(0, 5), (2, 7), (2, 8)] ∧ Guarded.gpb.init n.store = [(0, 5), (2, 8)] ∧
+    gpbLookup n.cache 1 = some 5 ∧ gpbLookup n.cache 2 = some 8 := by decide
 
--- two sets in one block: cache and restarted cache differ as lists, every lookup agrees
-example : let g := gpbFold { store := [], cache := [] } [(0, 5), (3, 7), (3, 8)]
-    g.cache ≠ (gpbRestart g).cache ∧ gpbLookup g.cache 4 = some 8 ∧ gpbLookup (gpbRestart g).cache 4 = some 8 := by decide
-
-example : (designate.crun { store := [], cache := designate.init [], height := 0 }
-    [.block [{ ops := [.designate 8 [1, 2]], halts := true }, { ops := [.designate 4 [3]], halts := false }],
-     .restart, .block [{ ops := [.designate 8 [5]], halts := true }]]).cache
+example :
+    let e : Guarded.Env := { committee := [(0, 0), (1, 0)], validators := 1 }
+    let w : Guarded.Witness := some (2, [0, 1])
+    (Guarded.gdesignate.erun { store := [], cache := Guarded.gdesignate.init [], height := 0 }
+      [.block e [{ ops := [⟨⟨8, [2, 1]⟩, w⟩], halts := true }, { ops := [⟨⟨4, [3]⟩, w⟩], halts := false },
+                 { ops := [⟨⟨8, [7]⟩, w⟩], halts := true }, { ops := [⟨⟨16, [7, 7]⟩, w⟩], halts := true },
+                 { ops := [⟨⟨32, [7]⟩, none⟩], halts := true }, { ops := [⟨⟨5, [7]⟩, w⟩], halts := true }],
+       .restart, .block e [{ ops := [⟨⟨8, [5]⟩, w⟩], halts := true }]]).cache
     = [(4, none), (8, some (3, [5])), (16, none), (32, none)] := by decide
 
 example : (management.crun { store := { contracts := [], nextId := 1 }, cache := [], height := 0 }
@@ -311,34 +359,62 @@ end Components
 namespace Natives
 open Components
 
-/-- (C01 for ALL modelled natives) Policy fees + blocked list + NEO governance, the settings of Policy / Notary /
-    Oracle / NEO, the whitelisted fees, RoleManagement and ContractManagement side by side in one node: any two
-    schedules of addBlock/flush/restart/gc/poolTx with the same blocks give the same observation (storage of every
-    component, per-transaction results, every cache's answers), for every committee configuration and every initial
-    contents of the component storages. -/
-theorem all_natives_schedule_independent (cfg : Cfg) (holder : Acct)
-    (s0 : List (Nat × Int)) (w0 : List (WKey × Int)) (r0 : RoleStore) (m0 : MgmtStore)
-    (σ₁ σ₂ : List (Step Unit (List Tx × List (CTx { o : SetOp // o.disciplined = true }) × List (CTx WlOp) × List (CTx RoleOp) × List (CTx MgmtOp)) Unit))
-    (hb : blocksOf σ₁ = blocksOf σ₂) :
-    observe (allSys cfg) (run (allSys cfg) (allGenesisNode cfg holder s0 w0 r0 m0) σ₁) =
-    observe (allSys cfg) (run (allSys cfg) (allGenesisNode cfg holder s0 w0 r0 m0) σ₂) := by
-  have hg := allGenesis_good cfg holder s0 w0 r0 m0
-  have hs : stateView (allSys cfg) (allGenesisNode cfg holder s0 w0 r0 m0).read = (allGenesisNode cfg holder s0 w0 r0 m0).read :=
-    stateView_toSys _ _ _
-  have h0 : Sim (allSys cfg) (UGood (AllGood cfg)) (allGenesisNode cfg holder s0 w0 r0 m0) (allGenesisNode cfg holder s0 w0 r0 m0) :=
+/-- (C01 for ALL modelled natives, guards included) Policy fees + blocked list + NEO governance, the guarded
+    settings of Policy / Notary / Oracle / NEO, the whitelisted fees, guarded RoleManagement, ContractManagement (contract
+    records, next id, guarded cache-less minimum deployment fee) and guarded NEO gasPerBlock side by side in one node, the guarded components checking committee witnesses against
+    the committee the NEO cache of THAT node holds at each block: any two schedules of
+    addBlock/flush/restart/gc/poolTx with the same blocks give the same observation (storage of every component,
+    per-transaction results incl. the predicted halt/fault of every guarded call, every cache's answers incl.
+    GetGASPerBlock for every index), for every committee configuration, protocol configuration and initial contents
+    of the remaining component storages. -/
+theorem all_natives_schedule_independent (cfg : Cfg) (holder : Acct) (mtb vubi mspb : Int)
+    (w0 : List (WKey × Int)) (r0 : RoleStore) (m0 : MgmtStore)
+    (σ₁ σ₂ : List (Step Unit GBlock Unit)) (hb : blocksOf σ₁ = blocksOf σ₂) :
+    observe (allSysG cfg) (run (allSysG cfg) (allGenesisNodeG cfg holder mtb vubi mspb w0 r0 m0) σ₁) =
+    observe (allSysG cfg) (run (allSysG cfg) (allGenesisNodeG cfg holder mtb vubi mspb w0 r0 m0) σ₂) := by
+  have hg := allGenesisG_good cfg holder mtb vubi mspb w0 r0 m0
+  have hs : stateView (allSysG cfg) (allGenesisNodeG cfg holder mtb vubi mspb w0 r0 m0).read =
+      (allGenesisNodeG cfg holder mtb vubi mspb w0 r0 m0).read := stateView_toSys _ _ _
+  have h0 : Sim (allSysG cfg) (UGood (AllGoodG cfg)) (allGenesisNodeG cfg holder mtb vubi mspb w0 r0 m0)
+      (allGenesisNodeG cfg holder mtb vubi mspb w0 r0 m0) :=
     ⟨rfl, rfl, rfl, by rw [hs]; exact hg, by rw [hs]; exact hg⟩
-  exact observe_independent_of_schedule (allSys cfg) ((allU_adequate cfg).toAdequate allDefault) _ _ h0 σ₁ σ₂ hb
+  exact observe_independent_of_schedule (allSysG cfg) ((allUG_adequate cfg).toAdequate allDefaultG) _ _ h0 σ₁ σ₂ hb
 
--- non-vacuity: the regression history for the natives, a designation and a deployment next to it, a restart in
--- the middle of one schedule only
+-- non-vacuity: a block with a passing and a failing guarded setter, a designation, a deployment and two
+-- setGasPerBlock; a restart in the middle of one schedule only
 example :
-    let blkA : List Tx × List (CTx { o : SetOp // o.disciplined = true }) × List (CTx WlOp) × List (CTx RoleOp) × List (CTx MgmtOp) :=
-      ([], [{ ops := [⟨.set 1 7, rfl⟩], halts := true }], [], [{ ops := [.designate 8 [1]], halts := true }], [{ ops := [.deploy 5], halts := true }])
-    observe (allSys wCfg) (run (allSys wCfg) (allGenesisNode wCfg wHolder [] [] [] { contracts := [], nextId := 1 })
+    let w : Guarded.Witness := some (2, [0, 1])
+    let blkA : GBlock :=
+      ([], [{ ops := [⟨.attrFee 33 7, w⟩], halts := true }, { ops := [⟨.maxVUB 30, w⟩], halts := true }], [],
+       [{ ops := [⟨⟨8, [1]⟩, w⟩], halts := true }], [{ ops := [.deploy 5], halts := true }],
+       [{ ops := [⟨7, w⟩], halts := true }, { ops := [⟨8, w⟩], halts := true }],
+       [{ ops := [⟨3, w⟩], halts := true }, { ops := [⟨-3, w⟩], halts := true }])
+    observe (allSysG wCfg) (run (allSysG wCfg) (allGenesisNodeG wCfg wHolder 20 5 1000 [] [] { contracts := [], nextId := 1 })
         [Step.addBlock blkA, Step.restart, Step.addBlock blkA, Step.flush]) =
-    observe (allSys wCfg) (run (allSys wCfg) (allGenesisNode wCfg wHolder [] [] [] { contracts := [], nextId := 1 })
+    observe (allSysG wCfg) (run (allSysG wCfg) (allGenesisNodeG wCfg wHolder 20 5 1000 [] [] { contracts := [], nextId := 1 })
         [Step.addBlock blkA, Step.addBlock blkA]) :=
-  all_natives_schedule_independent wCfg wHolder _ _ _ _ _ _ (by rfl)
+  all_natives_schedule_independent wCfg wHolder 20 5 1000 _ _ _ _ _ (by rfl)
+
+-- ... and the predicted outcomes are the expected ones: attrFee halts, maxVUB 30 ≥ mtb 20 faults
+example :
+    let w : Guarded.Witness := some (2, [0, 1])
+    let blkA : GBlock :=
+      ([], [{ ops := [⟨.attrFee 33 7, w⟩], halts := true }, { ops := [⟨.maxVUB 30, w⟩], halts := true }], [], [], [], [], [])
+    (run (allSysG wCfg) (allGenesisNodeG wCfg wHolder 20 5 1000 [] [] { contracts := [], nextId := 1 })
+        [Step.addBlock blkA]).last.2.1 = [true, false] := by decide
+
+/-- (C01, why the dependent product is the right one) Wherever a transaction stands in a block, the committee its
+    CheckCommittee uses is the environment's: NeoCache.committee after OnPersist; no transaction changes it. And the
+    natives model's own committee-gated calls use the same check function. -/
+theorem guarded_calls_see_block_committee (cfg : Cfg) (st : Storage) (c : Caches) (h : Nat) (pre : List Tx) (tx : Tx) :
+    let v := viewOf (execTxs (onPersist cfg { st := st, c := c } h) pre).1
+    v.committee = (Guarded.envOf cfg st c h).committee ∧
+    checkCommittee v tx = Guarded.committeeOk (Guarded.envOf cfg st c h).committee tx.committee := by
+  intro v
+  have h1 := Guarded.committee_constant_in_block cfg st c h pre
+  exact ⟨h1, by rw [Guarded.checkCommittee_eq]; show Guarded.committeeOk v.committee _ = _; rw [h1]⟩
+
+example : (Guarded.envOf wCfg (genesisStorage wCfg wHolder) (genesisCaches wCfg wHolder) 1).committee = [(0, 0), (1, 0)] := by decide
 
 end Natives
 
@@ -448,5 +524,115 @@ theorem cache_writes_disciplined : Generated.CacheWrites.table.all cacheWriteOk 
 example : cacheWriteOk ("pkg/core/native/policy.go", "Policy.setWhitelistFeeContract", "PolicyCache.whitelistedContracts", "ro") = false := by decide
 set_option maxRecDepth 100000 in
 example : Generated.CacheWrites.table.length ≥ 100 := by decide
+
+-- ---------------------------------------------------------------------------------------------
+-- generated-fact obligation: what a restarted node rebuilds of every native cache (InitializeCache)
+
+/-- how a field of a native cache struct comes back after a restart. `rhs` is a list of token sets: for each of them
+    some statement of the native's InitializeCache closure must set the field from an expression containing all its
+    identifier tokens. -/
+inductive CacheFieldClass where
+  /-- rebuilt from contract storage; unless `key` is empty (the read then sits inside the callee named in `rhs`) the
+      same closure must read storage with an expression containing the token `key` -/
+  | restored (rhs : List (List String)) (key : String)
+  /-- computed from restored fields, the configuration or a constant -/
+  | derived (rhs : List (List String))
+  /-- not rebuilt to its pre-restart value, with the reason why no contract-visible answer depends on that -/
+  | transient (rhs : List (List String)) (why : String)
+deriving DecidableEq, Repr
+
+open CacheFieldClass in
+/-- hand-written classification of every field the extractor lists (Generated/CacheRestore.lean `fields`) -/
+def cacheFieldClasses : List (String × String × CacheFieldClass) := [
+  -- RoleManagement: the four role records are re-read with index MaxUint32 = the record with the greatest activation
+  -- height, whatever the restart height (designate_cache_coherent)
+  ("DesignationCache", "oracles", restored [["cache", "oracles"]] ""),
+  ("DesignationCache", "stateVals", restored [["cache", "stateVals"]] ""),
+  ("DesignationCache", "neofsAlphabet", restored [["cache", "neofsAlphabet"]] ""),
+  ("DesignationCache", "notaries", restored [["cache", "notaries"]] ""),
+  ("roleData", "nodes", restored [["nodeKeys", "getDesignatedByRoleFromStorage", "MaxUint32"]] ""),
+  ("roleData", "height", restored [["height", "getDesignatedByRoleFromStorage", "MaxUint32"]] ""),
+  ("roleData", "addr", derived [["hashFromNodes", "nodeKeys"]]),
+  ("DesignationCache", "rolesChangedFlag", transient [["true"]]
+    "only read by notifyServicesInternal (PostPersist) to decide whether the node-local oracle / notary / state-root services are told about new nodes; no native method returns it"),
+  -- ContractManagement: one pass over the contract records (management_cache_coherent)
+  ("ManagementCache", "contracts", restored [["cs"]] "PrefixContract"),
+  ("ManagementCache", "nep11", restored [["struct"]] "PrefixContract"),
+  ("ManagementCache", "nep17", restored [["struct"]] "PrefixContract"),
+  -- NEO (neo_cache_coherent, restart_cache_good; gasPerBlock_cache_coherent; settings_cache_coherent for registerPrice)
+  ("NeoCache", "committee", restored [["cvs"]] "prefixCommittee"),
+  ("NeoCache", "committeeHash", derived [["Hash160", "script"]]),
+  ("NeoCache", "nextValidators", derived [["committee", "GetNumOfCNs", "blockHeight"]]),
+  ("NeoCache", "newEpochCommittee", derived [["computeCommitteeMembers", "blockHeight"], ["Clone", "cache", "committee"]]),
+  ("NeoCache", "newEpochCommitteeHash", derived [["Hash160", "script"], ["cache", "committeeHash"]]),
+  ("NeoCache", "newEpochNextValidators", derived [["committee", "numOfCNs"], ["cache", "nextValidators", "Copy"]]),
+  ("NeoCache", "gasPerBlock", restored [["getSortedGASRecordFromDAO"]] ""),
+  ("NeoCache", "registerPrice", restored [["getIntWithKey", "prefixRegisterPrice"]] "prefixRegisterPrice"),
+  ("NeoCache", "votesChanged", derived [["true"]]),   -- conservative: forces the recomputation at the epoch end (NeoGood.fresh)
+  ("NeoCache", "gasPerVoteCache", transient [["make", "map"]]
+    "partial cache, empty after a restart: getLatestGASPerVote falls back to storage, and every cached entry is the stored one (gasPerVote_cache_coherent)"),
+  ("NotaryCache", "maxNotValidBeforeDelta", restored [["getIntWithKey", "maxNotValidBeforeDeltaKey"]] "maxNotValidBeforeDeltaKey"),
+  ("OracleCache", "requestPrice", restored [["getIntWithKey", "prefixRequestPrice"]] "prefixRequestPrice"),
+  -- Policy (policy_cache_coherent, settings_cache_coherent, whitelist_cache_coherent)
+  ("PolicyCache", "execFeeFactor", restored [["getIntWithKey", "execFeeFactorKey"]] "execFeeFactorKey"),
+  ("PolicyCache", "feePerByte", restored [["getIntWithKey", "feePerByteKey"]] "feePerByteKey"),
+  ("PolicyCache", "storagePrice", restored [["getIntWithKey", "storagePriceKey"]] "storagePriceKey"),
+  ("PolicyCache", "msPerBlock", restored [["getIntWithKey", "msPerBlockKey"]] "msPerBlockKey"),
+  ("PolicyCache", "maxVUBIncrement", restored [["getIntWithKey", "maxVUBIncrementKey"]] "maxVUBIncrementKey"),
+  ("PolicyCache", "maxTraceableBlocks", restored [["getIntWithKey", "MaxTraceableBlocksKey"]] "MaxTraceableBlocksKey"),
+  ("PolicyCache", "attributeFee", restored [["value", "Int64"]] "attributeFeePrefix"),
+  ("PolicyCache", "blockedAccounts", restored [["append", "blockedAccounts", "hash"]] "blockedAccountPrefix"),
+  ("PolicyCache", "whitelistedContracts", restored [["append", "whitelistedContracts", "offset"]] "whitelistedFeeContractPrefix"),
+  ("PolicyCache", "maxVerificationGas", derived [["defaultMaxVerificationGas"]]),   -- a constant, no setter
+  ("PolicyCache", "faunInitialized", derived [["true"]])]   -- hardfork flag at the restart height
+
+def classOfField (t f : String) : Option CacheFieldClass :=
+  (cacheFieldClasses.find? fun c => c.1 == t && c.2.1 == f).map (·.2.2)
+
+abbrev RestoreRow := String × String × String × String × String × List String
+
+def restoreRows (t f : String) : List RestoreRow :=
+  Generated.CacheRestore.restores.filter fun r => r.2.2.1 == t ++ "." ++ f
+
+def mentionsAll (rows : List RestoreRow) (rhs : List (List String)) : Bool :=
+  !rows.isEmpty && rhs.all fun toks => rows.any fun r => toks.all fun t => r.2.2.2.2.2.contains t
+
+def cacheFieldOk (c : String × String × CacheFieldClass) : Bool :=
+  let rows := restoreRows c.1 c.2.1
+  match c.2.2 with
+  | .restored rhs key =>
+    mentionsAll rows rhs &&
+      (key == "" || rows.any fun r => Generated.CacheRestore.reads.any fun q => q.1 == r.1 && q.2.2.2.2.2.contains key)
+  | .derived rhs => mentionsAll rows rhs
+  | .transient rhs _ => mentionsAll rows rhs
+
+set_option maxRecDepth 100000 in
+/-- (C01, generated-fact obligation) The classification covers EXACTLY the fields of the native cache structs found in
+    pkg/core/native's current source: a new or renamed cache field breaks this `decide`. -/
+theorem cache_fields_classified :
+    (Generated.CacheRestore.fields.all fun f => (classOfField f.1 f.2.1).isSome) = true ∧
+    (cacheFieldClasses.all fun c => Generated.CacheRestore.fields.any fun f => f.1 == c.1 && f.2.1 == c.2.1) = true := by
+  decide
+
+set_option maxRecDepth 100000 in
+/-- (C01, generated-fact obligation) Every field is set inside the closure of its native's InitializeCache from an
+    expression containing what the classification names (the storage key constant, the re-read call with MaxUint32, the
+    recomputation), and for a restored field the closure reads storage under that key: an InitializeCache that stops
+    restoring a field, restores it from another key, or — like seeded change C01-m4 — re-reads the role records as of
+    the restart height, breaks this `decide`. -/
+theorem cache_restore_matches_classification : cacheFieldClasses.all cacheFieldOk = true := by decide
+
+set_option maxRecDepth 100000 in
+/-- (C01∩C04, generated-fact obligation) Every map-typed cache field is cloned by Copy(): a private layer never
+    shares a map (mutated in place by design) with the layer below. -/
+theorem cache_maps_cloned_on_copy :
+    (Generated.CacheRestore.fields.all fun f =>
+      f.2.2.2 != "map" || Generated.CacheRestore.copies.any fun r =>
+        r.2.2.1 == f.1 ++ "." ++ f.2.1 && r.2.2.2.2.2.contains "maps" && r.2.2.2.2.2.contains "Clone") = true := by
+  decide
+
+set_option maxRecDepth 100000 in
+example : cacheFieldOk ("PolicyCache", "storagePrice", .restored [["getIntWithKey", "execFeeFactorKey"]] "storagePriceKey") = false := by decide
+example : Generated.CacheRestore.fields.length ≥ 30 := by decide
 
 end NeoModel.Ledger
